@@ -155,6 +155,12 @@ pub fn run(args: &[String]) {
         let r = measure(|| CMSHeap::<u64>::new(k, CountMinSketch::with_params(64, 4)), |f, i| f.add(mix64(i) % 5000), |f| f.clear(), &stages);
         put(&mut out, "cmsheap", json!({"k": k, "sketch_bytes": 64 * 4 * 8}), r);
     }
+    // CMSHeap over a NARROW sketch and a small alphabet: tracked elements are re-added all the time and the sketch
+    // over-estimates them (collisions in every row); still k items
+    for k in [1usize, 4, 16] {
+        let r = measure(|| CMSHeap::<u64>::new(k, CountMinSketch::with_params(8, 2)), |f, i| f.add(mix64(i) % 40), |f| f.clear(), &stages);
+        put(&mut out, "cmsheap", json!({"k": k, "sketch_bytes": 8 * 2 * 8, "stream": "40 symbols over an 8x2 sketch"}), r);
+    }
     // LossyCounter<u64>: O(1/eps * log(eps n)) entries -- growth with n is allowed, bounded by C09's table bound
     for w in [10usize, 100, 1000] {
         let r = measure(|| LossyCounter::<u64>::with_width(w), |f, i| { f.add(mix64(i) % 100_000); }, |f| f.clear(), &stages);
@@ -188,6 +194,48 @@ pub fn run(args: &[String]) {
         for i in 2000..6000u64 { let _ = c.insert(&i); }
         let b2 = live() - base;
         put(&mut out, "failed-ops", json!({"what": "cuckoo filter 16 slots: thousands of inserts failing after 500 kicks", "succeeded": ok}), json!({"new": b1, "at": [b2], "cleared": 0, "cleared_plus_1000": 0}));
+    }
+    // clear-and-reuse cycles: a structure that is used a little and cleared, thousands of times, must not gain memory
+    // (fingerprint / remainder widths include the powers of two, where the packed vectors end exactly on a block)
+    {
+        fn cycles<T>(mk: impl FnOnce() -> T, mut round: impl FnMut(&mut T, u64), n: u64) -> Value {
+            let base = live();
+            let mut obj = mk();
+            for c in 0..20 {
+                round(&mut obj, c);
+            }
+            let b0 = live() - base;
+            for c in 20..n {
+                round(&mut obj, c);
+            }
+            let b1 = live() - base;
+            drop(obj);
+            json!({"new": b0, "at": [b1], "cleared": 0, "cleared_plus_1000": 0})
+        }
+        let n = 3000u64;
+        for l in [2usize, 3, 4, 8, 13, 16, 32, 33, 64] {
+            let r = cycles(|| CuckooFilter::<u64, ChaChaRng>::with_params(ChaChaRng::from_seed([0; 32]), 2, 16, l), |f, c| { for i in 0..6u64 { let _ = f.insert(&(c * 7 + i)); } f.clear(); }, n);
+            put(&mut out, "clear-cycles", json!({"what": "cuckoo 2x16", "l": l, "cycles": n}), r);
+            if l + 4 <= 64 {
+                let r = cycles(|| QuotientFilter::<u64>::with_params(4, l), |f, c| { for i in 0..6u64 { let _ = f.insert(&(c * 7 + i)); } f.clear(); }, n);
+                put(&mut out, "clear-cycles", json!({"what": "quotient q=4", "r": l, "cycles": n}), r);
+            }
+        }
+        let r = cycles(|| BloomFilter::<u64>::with_params(1000, 3), |f, c| { for i in 0..6u64 { f.insert(&(c * 7 + i)).unwrap(); } f.clear(); }, n);
+        put(&mut out, "clear-cycles", json!({"what": "bloom 1000x3", "cycles": n}), r);
+        let r = cycles(|| CountMinSketch::<u64, u32>::with_params(64, 3), |f, c| { for i in 0..6u64 { f.add(&(c * 7 + i)); } f.clear(); }, n);
+        put(&mut out, "clear-cycles", json!({"what": "cms 64x3", "cycles": n}), r);
+        let r = cycles(|| HyperLogLog::<u64>::new(6), |f, c| { for i in 0..6u64 { f.add(&(c * 7 + i)); } f.clear(); }, n);
+        put(&mut out, "clear-cycles", json!({"what": "hll b=6", "cycles": n}), r);
+        let r = cycles(|| ReservoirSampling::<u64, ChaChaRng>::new(4, ChaChaRng::from_seed([0; 32])), |f, c| { for i in 0..30u64 { f.add(c * 31 + i); } f.clear(); }, n);
+        put(&mut out, "clear-cycles", json!({"what": "reservoir k=4", "cycles": n}), r);
+        let r = cycles(|| CMSHeap::<u64>::new(4, CountMinSketch::with_params(8, 2)), |f, c| { for i in 0..30u64 { f.add((c + i) % 11); } f.clear(); }, n);
+        put(&mut out, "clear-cycles", json!({"what": "cmsheap k=4 over 8x2", "cycles": n}), r);
+        let r = cycles(|| LossyCounter::<u64>::with_width(5), |f, c| { for i in 0..30u64 { f.add((c + i) % 11); } f.clear(); }, n);
+        put(&mut out, "clear-cycles", json!({"what": "lossy width 5", "cycles": n}), r);
+        let r = cycles(|| td::make("K1", 20.0, 5), |d, c| { for i in 0..40u64 { match d { td::Dg::K0(t) => t.insert((c + i) as f64), td::Dg::K1(t) => t.insert((c + i) as f64), td::Dg::K2(t) => t.insert((c + i) as f64), td::Dg::K3(t) => t.insert((c + i) as f64) } }
+            match d { td::Dg::K0(t) => t.clear(), td::Dg::K1(t) => t.clear(), td::Dg::K2(t) => t.clear(), td::Dg::K3(t) => t.clear() } }, n);
+        put(&mut out, "clear-cycles", json!({"what": "tdigest K1 delta 20 backlog 5", "cycles": n}), r);
     }
     out.flush();
     println!("STATS {}", json!({"measurements": tid}));
